@@ -164,10 +164,11 @@ fn collect_peers_cids_from_trace<'data>(
                 let cid = call.get_cid();
                 if let Some(cid) = cid {
                     // TODO refactor
+                    // the CID store is verified, but nothing ties the trace to it before this point
                     let service_result = cid_info
                         .service_result_store
                         .get(cid)
-                        .expect(CANNOT_HAPPEN_IN_VERIFIED_CID_STORE);
+                        .ok_or_else(|| DataVerifierError::CidNotFound(cid.get_inner()))?;
                     let tetraplet = cid_info
                         .tetraplet_store
                         .get(&service_result.tetraplet_cid)
@@ -182,7 +183,7 @@ fn collect_peers_cids_from_trace<'data>(
                 let canon_result = cid_info
                     .canon_result_store
                     .get(cid)
-                    .expect(CANNOT_HAPPEN_IN_VERIFIED_CID_STORE);
+                    .ok_or_else(|| DataVerifierError::CidNotFound(cid.get_inner()))?;
                 let tetraplet = cid_info
                     .tetraplet_store
                     .get(&canon_result.tetraplet)
